@@ -9,6 +9,7 @@ import (
 
 	"github.com/tdakkota/docker-logql/verifharness/canon"
 	"github.com/tdakkota/docker-logql/verifharness/evid"
+	"github.com/tdakkota/docker-logql/verifharness/gen"
 	"github.com/tdakkota/docker-logql/verifharness/mockstore"
 	"github.com/tdakkota/docker-logql/verifharness/model"
 )
@@ -19,6 +20,10 @@ type C13Operand struct {
 	V    float64   `json:"v,omitempty"`
 	Lit  bool      `json:"lit,omitempty"`
 	Sub  *C13Chain `json:"sub,omitempty"`
+	// Series mode: the operand is a vector of two series, k="a" with value V and, when HasB,
+	// k="b" with value VB (both small counts).
+	VB   float64 `json:"vb,omitempty"`
+	HasB bool    `json:"has_b,omitempty"`
 }
 
 // C13Chain is operand (op operand)*.
@@ -31,6 +36,59 @@ type C13Chain struct {
 type C13Case struct {
 	Chain C13Chain `json:"chain"`
 	Text  string   `json:"text"`
+	// Series: the vector operands are computed from log records and carry two series (k="a",
+	// k="b"), the second one missing from some operands: an expression is evaluated series by
+	// series, and its sides differ in size.
+	Series bool `json:"series,omitempty"`
+}
+
+// c13SeriesLeaf is the text of vector operand i in series mode.
+func c13SeriesLeaf(i int) string {
+	return fmt.Sprintf(`sum by (k) (count_over_time({leaf="L%d"}[1m]))`, i)
+}
+
+// seriesText prints the chain in series mode; *idx counts the vector operands.
+func (c C13Chain) seriesText(idx *int) string {
+	var sb strings.Builder
+	for i, o := range c.Operands {
+		if i > 0 {
+			sb.WriteString(" " + c.Ops[i-1] + " ")
+		}
+		switch {
+		case o.Sub != nil:
+			sb.WriteString("(" + o.Sub.seriesText(idx) + ")")
+		case o.Lit:
+			sb.WriteString(o.Text)
+		default:
+			sb.WriteString(c13SeriesLeaf(*idx))
+			*idx++
+		}
+	}
+	return sb.String()
+}
+
+// c13SeriesRecs builds the records behind the vector operands: V (VB) records per operand and series.
+func c13SeriesRecs(c C13Chain, idx *int, recs *[]model.Rec) {
+	const at = int64(1700000000) * 1e9
+	for _, o := range c.Operands {
+		switch {
+		case o.Sub != nil:
+			c13SeriesRecs(*o.Sub, idx, recs)
+		case o.Lit:
+		default:
+			add := func(k string, n int) {
+				for j := 0; j < n; j++ {
+					*recs = append(*recs, model.Rec{TS: at - 1e9 - int64(len(*recs))*1e6, Line: gen.BS(fmt.Sprintf("L%d %s %d", *idx, k, j)),
+						Labels: model.LabelMap{"leaf": fmt.Sprintf("L%d", *idx), "k": k}})
+				}
+			}
+			add("a", int(o.V))
+			if o.HasB {
+				add("b", int(o.VB))
+			}
+			*idx++
+		}
+	}
 }
 
 func (c C13Chain) String() string {
@@ -152,14 +210,20 @@ func (t *c13Tree) eval() optVal {
 
 // c13Parse builds the tree of a chain by precedence climbing. rightAssocAll is the defect
 // model of the known finding: every level associates to the right.
-func c13Parse(c C13Chain, rightAssocAll bool) *c13Tree {
+func c13Parse(c C13Chain, rightAssocAll bool) *c13Tree { return c13ParseFor(c, rightAssocAll, false) }
+
+// c13ParseFor builds the tree with the values of series k="a" or, with seriesB, of series k="b".
+func c13ParseFor(c C13Chain, rightAssocAll bool, seriesB bool) *c13Tree {
 	pos := 0
 	operand := func(i int) *c13Tree {
 		o := c.Operands[i]
 		if o.Sub != nil {
-			sub := c13Parse(*o.Sub, rightAssocAll)
+			sub := c13ParseFor(*o.Sub, rightAssocAll, seriesB)
 			// Parentheses: the value of the sub-tree, kept as a leaf-like unit.
 			return &c13Tree{op: "()", l: sub, r: &c13Tree{}}
+		}
+		if seriesB && !o.Lit {
+			return &c13Tree{leaf: optVal{ok: o.HasB, v: o.VB}}
 		}
 		return &c13Tree{leaf: optVal{ok: true, v: o.V}, lit: o.Lit}
 	}
@@ -222,24 +286,134 @@ func (t *c13Tree) fullyParenthesised(c *C13Chain, idx *int) string {
 	return "(" + l + " " + t.op + " " + r + ")"
 }
 
-func flattenLeaves(c *C13Chain, out *[]string) {
+func flattenLeaves(c *C13Chain, out *[]string, vec *int) {
 	for _, o := range c.Operands {
 		if o.Sub != nil {
-			flattenLeaves(o.Sub, out)
+			flattenLeaves(o.Sub, out, vec)
 		} else if o.Lit {
 			*out = append(*out, o.Text)
+		} else if vec != nil {
+			*out = append(*out, c13SeriesLeaf(*vec))
+			*vec++
 		} else {
 			*out = append(*out, "vector("+o.Text+")")
 		}
 	}
 }
 
+// c13SeriesMode makes leafText print the operands of series mode (set by the check around its
+// calls; a test binary decides one case at a time).
+var c13SeriesMode bool
+
 func leafText(c *C13Chain, idx *int) string {
 	var leaves []string
-	flattenLeaves(c, &leaves)
+	if c13SeriesMode {
+		vec := 0
+		flattenLeaves(c, &leaves, &vec)
+	} else {
+		flattenLeaves(c, &leaves, nil)
+	}
 	s := leaves[*idx]
 	*idx++
 	return s
+}
+
+// c13EvalSeries evaluates text over recs and returns the values of series k="a" and k="b".
+func c13EvalSeries(text string, recs []model.Rec) (a, b optVal, v *evid.Violation) {
+	at := int64(1700000000) * 1e9
+	sorted := append([]model.Rec(nil), recs...)
+	model.SortRecs(sorted)
+	got, _, v, _ := runMetric(sorted, mockstore.Caps{}, false, text, model.Params{Start: at, End: at, Step: 0, Limit: -1})
+	if v != nil {
+		v.Sig = "C13/" + v.Sig
+		return a, b, v
+	}
+	keyA, keyB := canon.LabelKey(map[string]string{"k": "a"}), canon.LabelKey(map[string]string{"k": "b"})
+	for k, pts := range got {
+		if k != keyA && k != keyB {
+			return a, b, evid.Viol("C13/labels", "%s: result series carries labels {%s}", text, k)
+		}
+		if len(pts) > 1 {
+			return a, b, evid.Viol("C13/many-points", "%s: %d points in series {%s}", text, len(pts), k)
+		}
+		for _, val := range pts {
+			if k == keyA {
+				a = optVal{ok: true, v: val}
+			} else {
+				b = optVal{ok: true, v: val}
+			}
+		}
+	}
+	return a, b, nil
+}
+
+// c13CheckSeries is c13Check for series mode: the conventional reading is evaluated series by series.
+func c13CheckSeries(c C13Case) (r evid.Result) {
+	c13SeriesMode = true
+	defer func() { c13SeriesMode = false }()
+	convA, convB := c13ParseFor(c.Chain, false, false), c13ParseFor(c.Chain, false, true)
+	defA, defB := c13ParseFor(c.Chain, true, false), c13ParseFor(c.Chain, true, true)
+	wantA, wantB := convA.evalP(), convB.evalP()
+	inDomain := convA.shapeP() != defA.shapeP()
+	levels := map[int]bool{}
+	pow := false
+	nOps := countOps(c.Chain, levels, &pow)
+	r.Class(true, "two-series-operands")
+	r.Class(inDomain, "equal-precedence-left-assoc-matters")
+	r.Class(true, fmt.Sprintf("operands=%d", nOps+1))
+	r.NonTrivial = nOps >= 2
+	var recs []model.Rec
+	idx := 0
+	c13SeriesRecs(c.Chain, &idx, &recs)
+	gotA, gotB, v := c13EvalSeries(c.Text, recs)
+	if v != nil {
+		r.Violation = v
+		return r
+	}
+	r.Evals = 1
+	if !optEq(gotA, wantA) || !optEq(gotB, wantB) {
+		dA, dB := defA.evalP(), defB.evalP()
+		if inDomain && optEq(gotA, dA) && optEq(gotB, dB) {
+			r.Violation = evid.Viol("C13/equal-precedence-right-assoc", "%s = {a: %v, b: %v}, conventional reading %s gives {a: %v, b: %v} (right-associative reading gives {a: %v, b: %v})", c.Text, gotA, gotB, convA.shapeP(), wantA, wantB, dA, dB)
+			return r
+		}
+		r.Violation = evid.Viol("C13/wrong-value", "%s over operands %s = {k=a: %v, k=b: %v}, conventional reading %s gives {k=a: %v, k=b: %v}", c.Text, c13Operands(c.Chain), gotA, gotB, convA.shapeP(), wantA, wantB)
+		return r
+	}
+	i := 0
+	chain := c.Chain
+	explicit := convA.fullyParenthesised(&chain, &i)
+	a2, b2, v := c13EvalSeries(explicit, recs)
+	if v != nil {
+		r.Violation = v
+		return r
+	}
+	r.Evals = 2
+	if !optEq(a2, gotA) || !optEq(b2, gotB) {
+		r.Violation = evid.Viol("C13/explicit-parentheses-differ", "%s = {a: %v, b: %v} but %s = {a: %v, b: %v}", c.Text, gotA, gotB, explicit, a2, b2)
+	}
+	return r
+}
+
+// c13Operands lists the values of the vector operands of series mode.
+func c13Operands(c C13Chain) string {
+	var parts []string
+	var walk func(c C13Chain)
+	walk = func(c C13Chain) {
+		for _, o := range c.Operands {
+			switch {
+			case o.Sub != nil:
+				walk(*o.Sub)
+			case o.Lit:
+			case o.HasB:
+				parts = append(parts, fmt.Sprintf("L%d{a:%v,b:%v}", len(parts), o.V, o.VB))
+			default:
+				parts = append(parts, fmt.Sprintf("L%d{a:%v}", len(parts), o.V))
+			}
+		}
+	}
+	walk(c)
+	return strings.Join(parts, " ")
 }
 
 func c13Eval(text string) (optVal, *evid.Violation) {
@@ -290,6 +464,9 @@ func countOps(c C13Chain, levels map[int]bool, pow *bool) int {
 }
 
 func c13Check(c C13Case) (r evid.Result) {
+	if c.Series {
+		return c13CheckSeries(c)
+	}
 	conv := c13Parse(c.Chain, false)
 	defect := c13Parse(c.Chain, true)
 	want := conv.evalP()
@@ -477,6 +654,27 @@ func c13Gen(t *rapid.T) C13Case {
 			}
 		}
 		chain = cur
+	}
+	if rapid.IntRange(0, 3).Draw(t, "two-series-operands") == 0 {
+		// Vector operands computed from records, two series each, the second one missing here and
+		// there: the sides of an operator differ in size.
+		var set func(c *C13Chain)
+		set = func(c *C13Chain) {
+			for i := range c.Operands {
+				o := &c.Operands[i]
+				if o.Sub != nil {
+					set(o.Sub)
+				} else if !o.Lit {
+					o.V = float64(rapid.IntRange(1, 5).Draw(t, "series-a"))
+					if o.HasB = rapid.IntRange(0, 2).Draw(t, "series-b-present") != 0; o.HasB {
+						o.VB = float64(rapid.IntRange(1, 5).Draw(t, "series-b"))
+					}
+				}
+			}
+		}
+		set(&chain)
+		idx := 0
+		return C13Case{Chain: chain, Text: chain.seriesText(&idx), Series: true}
 	}
 	return C13Case{Chain: chain, Text: chain.String()}
 }
